@@ -147,7 +147,12 @@ def mean_top_of_range(ctx: Ctx, dtype):
     A = Mean()
     outs = []
     for M in mats:
-        x = A(M)
+        try:
+            x = A(M)
+        except Exception as e:  # noqa: BLE001
+            ctx.violation(f"Mean raised {type(e).__name__} on a finite {m}x{n} {dtype} matrix with entries up to {float(M.abs().max()):.3e}",
+                          {"aggregator": "Mean", "family": "top-of-range", "dtype": str(dtype), "J": M.tolist()})
+            return
         ref = (M.double() / m).sum(dim=0)
         ctx.count("mean_top_of_range", str(dtype))
         if not bool(torch.isfinite(x).all()) or float(((x.double() - ref).abs() / ref.abs()).max()) > 8 * ulp(dtype):
